@@ -195,7 +195,7 @@ fn run_case(seed: u64, index: u64, md: &mut Model, rep: &mut Report) {
 }
 
 pub fn run(tier: &str, seed: u64, workers: usize) -> Report {
-    let n = if tier == "thorough" { 12000 } else { 800 };
+    let n = if tier == "thorough" { 12000 } else { 3000 };
     let mut total = parallel(workers, |w, nw| {
         let mut rep = Report::default();
         let mut md = Model::spawn();
